@@ -1,14 +1,21 @@
 /-
-Model of `acme_common::to_idna` (`acme_common/src/lib.rs:25-40`) and of the `punycode` crate 0.4.1
+Model of `acme_common::to_idna` (`acme_common/src/lib.rs:25-45`) and of the `punycode` crate 0.4.1
 encoder (`punycode-0.4.1/src/lib.rs:139-197`, RFC 3492 section 6.3), import-free.
 
 `to_idna(domain_name)`:
   split on '.', for each part `name`:
+    if name.chars().count() > 63 { return Err("IDNA encoding failed: label too long.") }
+                                                          -- since commit 300bbf4; ORIGINAL part,
+                                                          -- counted in `char`s, before lower-casing
     raw_name  = name.to_lowercase()                      -- Unicode, whole-string (final sigma rule)
     idna_name = if name.is_ascii() { raw_name }           -- test on the ORIGINAL part
                 else { "xn--" + punycode::encode(raw_name)? }
   join with '.'.
-No other processing (no NFC/NFKC, no UTS-46 mapping, no length check, no check of `*`).
+No other processing (no NFC/NFKC, no UTS-46 mapping, no check of `*`, no check of the length of
+the RESULTING label: 63 non-ASCII characters give an `xn--` label longer than 63 octets).
+The functions with suffix `G` take `chk : Bool`: `true` = the current tree (label length check),
+`false` = the tree before commit 300bbf4 (`…Old`), kept so that the original defect stays
+expressible (`Props/C01Ident.idna_total_old_is_false`).
 
 Unicode lower-casing is a PARAMETER: `lowerStr : List Char → List Char` stands for
 `str::to_lowercase` (it is not a per-character map: `Σ` becomes `σ` or `ς` depending on its
@@ -190,31 +197,51 @@ def punycodeEncode (input : List Char) : Option (List Char) :=
 
 def xnPrefix : List Char := ['x', 'n', '-', '-']
 
-/-- One iteration of the `for name in parts` loop. -/
-def idnaLabel (lowerStr : List Char → List Char) (p : Profile) (name : List Char) : Res :=
-  let raw := lowerStr name
-  if allAscii name then .ok raw
-  else match punycodeEncodeP p raw with
-    | .ok o => .ok (xnPrefix ++ o)
-    | r => r
+/-- `RFC 1035` label limit used by the check (`lib.rs:31`). -/
+def maxLabelChars : Nat := 63
+
+/-- One iteration of the `for name in parts` loop. `chk` = the length check of commit 300bbf4 is
+present. -/
+def idnaLabelG (chk : Bool) (lowerStr : List Char → List Char) (p : Profile) (name : List Char) :
+    Res :=
+  if chk && decide (name.length > maxLabelChars) then .err
+  else
+    let raw := lowerStr name
+    if allAscii name then .ok raw
+    else match punycodeEncodeP p raw with
+      | .ok o => .ok (xnPrefix ++ o)
+      | r => r
 
 /-- The loop with `?`: the first failing label decides. -/
-def idnaLabels (lowerStr : List Char → List Char) (p : Profile) :
+def idnaLabelsG (chk : Bool) (lowerStr : List Char → List Char) (p : Profile) :
     List (List Char) → Except Res (List (List Char))
   | [] => .ok []
   | name :: rest =>
-    match idnaLabel lowerStr p name with
+    match idnaLabelG chk lowerStr p name with
     | .ok l =>
-      match idnaLabels lowerStr p rest with
+      match idnaLabelsG chk lowerStr p rest with
       | .ok ls => .ok (l :: ls)
       | .error e => .error e
     | r => .error r
 
 /-- `to_idna` with the whole-string lower-casing as parameter. -/
-def toIdnaStr (lowerStr : List Char → List Char) (p : Profile) (domain : List Char) : Res :=
-  match idnaLabels lowerStr p (splitOn '.' domain) with
+def toIdnaStrG (chk : Bool) (lowerStr : List Char → List Char) (p : Profile)
+    (domain : List Char) : Res :=
+  match idnaLabelsG chk lowerStr p (splitOn '.' domain) with
   | .ok ls => .ok (joinWith '.' ls)
   | .error e => e
+
+/-- Current tree. -/
+def idnaLabel (lowerStr : List Char → List Char) (p : Profile) (name : List Char) : Res :=
+  idnaLabelG true lowerStr p name
+
+/-- `to_idna` of the CURRENT tree (labels of more than 63 characters are rejected). -/
+def toIdnaStr (lowerStr : List Char → List Char) (p : Profile) (domain : List Char) : Res :=
+  toIdnaStrG true lowerStr p domain
+
+/-- `to_idna` before commit 300bbf4 (no label length check). -/
+def toIdnaStrOld (lowerStr : List Char → List Char) (p : Profile) (domain : List Char) : Res :=
+  toIdnaStrG false lowerStr p domain
 
 /-- Per-character table lifted to strings (no context rule). -/
 def liftLower (lower : Char → List Char) : List Char → List Char := fun s => s.flatMap lower
